@@ -63,6 +63,17 @@ theorem loop_output_no_early_termination {V} (m : Method) (es : List (Ev V)) (hd
     (run m es).terminated = none :=
   no_exit_before_term m es hd
 
+/-- **every instance's iteration termination is produced, once, with the right count.** The closed loop of one
+    instance (combinator numbering → loop-when → body → back edge) whose condition first fails at iteration index `n`
+    sends to the loop output step exactly the body outputs `p.0 … p.(n-1)` and one `IterationTerminationToken(p.n)` —
+    the premise `instEvents` of `loop_output_any_order` (with `n = 0`: only `p.0`'s termination). -/
+theorem loop_term_emitted {V} (cond : Tag → Bool) (body : Tag → V) (p : Tag) (n : Nat)
+    (htrue : ∀ k, k < n → cond (p ++ [k]) = true) (hfalse : cond (p ++ [n]) = false)
+    (m : Counters) (hm : m p.dropLast = none) (fuel : Nat) (hf : n < fuel) :
+    cycle cond body fuel m p = instEvents (p, (List.range n).map (fun k => body (p ++ [k]))) := by
+  rw [cycle_eq cond body p n htrue hfalse m hm fuel hf]
+  simp [instEvents]
+
 /-- **the combinator step keeps reading while an instance iterates.** Once the first token of instance `p` has put
     `p` on the port's checklist, the step keeps creating `get` tasks for the port — even after the port's
     termination token (status COMPLETED) — until `IterationTerminationToken(p)` arrives. -/
